@@ -582,6 +582,12 @@ class Retrieve:
         self._status.add_problem(server, f)
         self._last_failure = f
 
+        # Whatever this copy put into the block hash tree of its share
+        # number was never tied to the signed root hash: start that tree
+        # afresh, so that it cannot be held against another copy of the
+        # same share number on another server.
+        self._block_hash_trees[shnum] = hashtree.IncompleteHashTree(self._num_segments)
+
         # Remove the reader from _active_readers
         self._active_readers.remove(reader)
         for shnum in list(self.remaining_sharemap.keys()):
